@@ -586,6 +586,39 @@ func c12Stripped(c *Ctx, ns *numberScanner, rule string) {
 		if !ok || !isScannerField(st.Addr, "tokenValue") {
 			return
 		}
+		// through phis and string concatenations
+		seen := map[ssa.Value]bool{}
+		var parts func(v ssa.Value)
+		parts = func(v ssa.Value) {
+			if v == nil || seen[v] {
+				return
+			}
+			seen[v] = true
+			switch x := v.(type) {
+			case *ssa.Phi:
+				for _, e := range x.Edges {
+					parts(e)
+				}
+			case *ssa.BinOp:
+				if x.Op == token.ADD {
+					parts(x.X)
+					parts(x.Y)
+				}
+			case *ssa.UnOp:
+				if a, ok := x.X.(*ssa.Alloc); ok {
+					for _, ref := range *a.Referrers() {
+						if s2, ok := ref.(*ssa.Store); ok && s2.Addr == ssa.Value(a) {
+							parts(s2.Val)
+						}
+					}
+				}
+			case *ssa.Call:
+				if calleeOf(x) == ns.Frag {
+					usesFrag = true
+				}
+			}
+		}
+		parts(st.Val)
 		for _, rt := range plainOrigins.Roots(st.Val) {
 			if rt.Kind == "call" && rt.Fn == ns.Frag {
 				usesFrag = true
@@ -750,6 +783,10 @@ func c15Speculation(c *Ctx) {
 				}
 			}
 		})
+		// ... or the state is kept in a snapshot struct: `saved := s.saveState(); ...; s.restoreState(saved)`
+		for fld := range c.snapshotRestores(f, cb) {
+			restored[fld] = true
+		}
 		if len(restored) == 0 {
 			n--
 			continue // calls a callback but restores nothing: a look-ahead predicate helper, not the speculation helper
@@ -994,7 +1031,10 @@ func c15FirstDiagnostic(c *Ctx) {
 		if !isC || calleeOf(call) != fd {
 			return
 		}
-		// second argument: Diagnostics[0]
+		// second argument: Diagnostics[0], directly or through a helper that returns it (nil when there is none)
+		if hc, isHC := call.Call.Args[1].(*ssa.Call); isHC && c.firstDiagnosticHelper(calleeOf(hc)) {
+			ok = true
+		}
 		if u, isU := call.Call.Args[1].(*ssa.UnOp); isU {
 			if ia, isIA := u.X.(*ssa.IndexAddr); isIA {
 				if k, isK := constIntArg(ia.Index); isK && k == 0 {
@@ -1377,4 +1417,197 @@ func stringHoles(v ssa.Value, depth int) []ssa.Value {
 		return []ssa.Value{v}
 	}
 	return []ssa.Value{v}
+}
+
+// firstDiagnosticHelper: h(source) returns nil when the source is nil or carries no diagnostics and
+// source.Diagnostics[0] otherwise (decided by folding h with the length of the diagnostics list pinned).
+func (c *Ctx) firstDiagnosticHelper(h *ssa.Function) bool {
+	if h == nil || !c.inModule(h) || len(h.Blocks) == 0 || len(h.Params) != 1 || h.Signature.Results().Len() != 1 {
+		return false
+	}
+	lenDiag := func(n int64) Pin {
+		return func(v ssa.Value) (constant.Value, bool) {
+			call, ok := v.(*ssa.Call)
+			if !ok || !isBuiltinCall(call, "len") || len(call.Call.Args) != 1 {
+				return nil, false
+			}
+			for _, rt := range plainOrigins.Roots(call.Call.Args[0]) {
+				if len(rt.Path) > 0 && rt.Path[len(rt.Path)-1] == "Diagnostics" {
+					return constant.MakeInt64(n), true
+				}
+			}
+			return nil, false
+		}
+	}
+	srcNil := func(isNil bool) Pin {
+		return func(v ssa.Value) (constant.Value, bool) {
+			bo, ok := v.(*ssa.BinOp)
+			if !ok || (bo.Op != token.EQL && bo.Op != token.NEQ) {
+				return nil, false
+			}
+			if !(bo.X == ssa.Value(h.Params[0]) && isNilConst(bo.Y) || bo.Y == ssa.Value(h.Params[0]) && isNilConst(bo.X)) {
+				return nil, false
+			}
+			res := isNil
+			if bo.Op == token.NEQ {
+				res = !isNil
+			}
+			return constant.MakeBool(res), true
+		}
+	}
+	// no diagnostics -> nil
+	r0 := c.foldWith(h, 0, lenDiag(0), srcNil(false))
+	if len(r0.Returns) == 0 {
+		return false
+	}
+	for _, ret := range r0.Returns {
+		if !isNilConst(ret.Results[0]) {
+			return false
+		}
+	}
+	rn := c.foldWith(h, 0, srcNil(true))
+	for _, ret := range rn.Returns {
+		if !isNilConst(ret.Results[0]) {
+			return false
+		}
+	}
+	// some diagnostics -> Diagnostics[0]
+	r1 := c.foldWith(h, 0, lenDiag(1), srcNil(false))
+	if len(r1.Returns) == 0 {
+		return false
+	}
+	for _, ret := range r1.Returns {
+		u, ok := ret.Results[0].(*ssa.UnOp)
+		if !ok {
+			return false
+		}
+		ia, ok := u.X.(*ssa.IndexAddr)
+		if !ok {
+			return false
+		}
+		if k, isK := constIntArg(ia.Index); !isK || k != 0 {
+			return false
+		}
+		first := false
+		for _, rt := range plainOrigins.Roots(ia.X) {
+			if len(rt.Path) > 0 && rt.Path[len(rt.Path)-1] == "Diagnostics" {
+				first = true
+			}
+		}
+		if !first {
+			return false
+		}
+	}
+	return true
+}
+
+// snapshotRestores: scanner fields that helper f puts back after the callback cb from a snapshot struct taken before
+// it. The snapshot is the result of a call made before cb whose struct result holds, field by field, loads of
+// scanner fields (G <- Scanner.F); after cb a function receiving that struct stores its field G into Scanner.F'.
+// A field counts as restored when F' == F.
+func (c *Ctx) snapshotRestores(f *ssa.Function, cb *ssa.Call) map[string]bool {
+	out := map[string]bool{}
+	// the value a local struct cell holds: its single store
+	cellValue := func(a *ssa.Alloc) ssa.Value {
+		var v ssa.Value
+		n := 0
+		for _, ref := range *a.Referrers() {
+			if st, ok := ref.(*ssa.Store); ok && st.Addr == ssa.Value(a) {
+				v = st.Val
+				n++
+			}
+		}
+		if n == 1 {
+			return v
+		}
+		return nil
+	}
+	structSource := func(v ssa.Value) ssa.Value {
+		for i := 0; i < 6 && v != nil; i++ {
+			switch x := v.(type) {
+			case *ssa.UnOp:
+				if a, ok := x.X.(*ssa.Alloc); ok {
+					v = cellValue(a)
+					continue
+				}
+				return nil
+			case *ssa.Alloc:
+				v = cellValue(x)
+				continue
+			}
+			break
+		}
+		return v
+	}
+	// save functions: struct field G <- Scanner field F
+	saveMap := func(g *ssa.Function) map[string]string {
+		m := map[string]string{}
+		instrs(g, func(b *ssa.BasicBlock, i int, in ssa.Instruction) {
+			st, ok := in.(*ssa.Store)
+			if !ok {
+				return
+			}
+			fa, ok := st.Addr.(*ssa.FieldAddr)
+			if !ok || typeName(fa.X.Type()) == "Scanner" {
+				return
+			}
+			if u, ok := st.Val.(*ssa.UnOp); ok {
+				if fs, ok := u.X.(*ssa.FieldAddr); ok && typeName(fs.X.Type()) == "Scanner" {
+					m[fieldName(fa)] = fieldName(fs)
+				}
+			}
+		})
+		return m
+	}
+	instrs(f, func(b *ssa.BasicBlock, i int, in ssa.Instruction) {
+		call, ok := in.(*ssa.Call)
+		if !ok || !instrDominates(cb, call) {
+			return
+		}
+		r := calleeOf(call)
+		if r == nil || !c.inModule(r) || len(r.Blocks) == 0 {
+			return
+		}
+		// which argument is a snapshot taken before the callback
+		for ai, a := range call.Call.Args {
+			src := structSource(a)
+			sc, ok := src.(*ssa.Call)
+			if !ok || !instrDominates(sc, cb) || calleeOf(sc) == nil || !c.inModule(calleeOf(sc)) {
+				continue
+			}
+			sm := saveMap(calleeOf(sc))
+			if len(sm) == 0 || ai >= len(r.Params) {
+				continue
+			}
+			par := r.Params[ai]
+			// in the restore function: Scanner.F' <- param.G
+			instrs(r, func(b2 *ssa.BasicBlock, j int, in2 ssa.Instruction) {
+				st, ok := in2.(*ssa.Store)
+				if !ok {
+					return
+				}
+				fa, ok := st.Addr.(*ssa.FieldAddr)
+				if !ok || typeName(fa.X.Type()) != "Scanner" {
+					return
+				}
+				g := ""
+				switch x := st.Val.(type) {
+				case *ssa.UnOp:
+					if fs, ok := x.X.(*ssa.FieldAddr); ok {
+						if structSource(fs.X) == ssa.Value(par) {
+							g = fieldName(fs)
+						}
+					}
+				case *ssa.Field:
+					if x.X == ssa.Value(par) {
+						g = fieldNameV(x)
+					}
+				}
+				if g != "" && sm[g] == fieldName(fa) {
+					out[fieldName(fa)] = true
+				}
+			})
+		}
+	})
+	return out
 }
